@@ -51,6 +51,7 @@ type GenesisCfg struct {
 	GovVotingSec       int64           `json:"gov_voting_sec"`
 	SignedBlocksWindow int64           `json:"signed_blocks_window"`
 	DowntimeJailSec    int64           `json:"downtime_jail_sec"`
+	SlashDowntimePct   int64           `json:"slash_downtime_pct,omitempty"` // 0 = SDK slashing burns nothing (the default assumption)
 	SnapshotLimit      uint64          `json:"snapshot_limit"`
 	TeamAcct           int             `json:"team_acct"`
 	Twins              []int           `json:"twins,omitempty"` // plain accounts with identical balances reserved for exact vote ties
@@ -171,7 +172,7 @@ func BuildGenesis(a *app.App, cfg *GenesisCfg, keys *Keys) ([]byte, error) {
 	sg.Params.MinSignedPerWindow = math.LegacyNewDecWithPrec(5, 1)
 	sg.Params.DowntimeJailDuration = time.Duration(cfg.DowntimeJailSec) * time.Second
 	// assumption (DESIGN §4): SDK slashing burns are configured off so that only Layer's own supply events remain
-	sg.Params.SlashFractionDowntime = math.LegacyZeroDec()
+	sg.Params.SlashFractionDowntime = math.LegacyNewDecWithPrec(cfg.SlashDowntimePct, 2)
 	sg.Params.SlashFractionDoubleSign = math.LegacyZeroDec()
 	gen[slashingtypes.ModuleName] = cdc.MustMarshalJSON(&sg)
 
